@@ -252,11 +252,11 @@ Qed.
 
 (* 1802: a VOk verdict with a model skip that succeeds means SkipGo and every flavour of SkipNative that was run consumed exactly
    the model's count — unless the bytes are not a strict well-formed value, in which case VOk still means they all agree *)
-Lemma judge_1802_sound : forall r dec deep len eg ng nats,
-  judge_1802 (Some r) dec deep len eg ng nats = VOk ->
+Lemma judge_1802_sound : forall r dec deep nq len eg ng nats,
+  judge_1802 (Some r) dec deep nq len eg ng nats = VOk ->
   eg = 0 /\ ng = len - zlen r /\ forall e n, In (e, n) nats -> e = 0 /\ n = ng.
 Proof.
-  intros r dec deep len eg ng nats H. unfold judge_1802 in H.
+  intros r dec deep nq len eg ng nats H. unfold judge_1802 in H.
   destruct (all_same pair_eqb nats); cbn [negb] in H; [|discriminate H].
   apply vand_ok in H. destruct H as [H1 H2].
   apply expect_ok in H1. apply andb_true_iff in H1. destruct H1 as [He Hn]. apply Z.eqb_eq in He. apply Z.eqb_eq in Hn.
@@ -277,8 +277,8 @@ Lemma check_1802_sound : forall t bs mask eg ng e0 n0 e1 n1 e2 n2 r,
   forall e n, In (e, n) (sel mask [(e0, n0); (e1, n1); (e2, n2)]) -> e = 0 /\ n = ng.
 Proof.
   intros t bs mask eg ng e0 n0 e1 n1 e2 n2 r H Hs.
-  change (judge_1802 (skip_go t bs) (fun _ => decode (S (length bs)) t bs) (fun _ => skip (S (length bs)) t bs) (zlen bs) eg ng (sel mask [(e0, n0); (e1, n1); (e2, n2)]) = VOk) in H.
-  rewrite Hs in H. exact (judge_1802_sound _ _ _ _ _ _ _ H).
+  change (judge_1802 (skip_go t bs) (fun _ => decode (S (length bs)) t bs) (fun _ => skip (S (length bs)) t bs) (fun _ => skip_nq (S (length bs)) t bs) (zlen bs) eg ng (sel mask [(e0, n0); (e1, n1); (e2, n2)]) = VOk) in H.
+  rewrite Hs in H. exact (judge_1802_sound _ _ _ _ _ _ _ _ H).
 Qed.
 
 (* 1801: a VOk verdict means AGREEMENT: either every implementation that was run rejected the document, or all of them accepted it
